@@ -2035,4 +2035,475 @@ theorem int_totalPre : TotalPre (fun a b : Int => if a < b then -1 else if b < a
 
 end spec
 end Select
+/-! ## `TryHeap`: the heap property (pure total-preorder `is_le`), `n_largest` / `n_smallest` -/
+
+namespace Heap
+open Select (PureSat)
+
+/-- `is_le` as a total preorder on Bool -/
+structure TotalLe (r : α → α → Bool) : Prop where
+  total : ∀ a b, r a b = true ∨ r b a = true
+  trans : ∀ a b c, r a b = true → r b c = true → r a c = true
+
+/-- the entry at index `i` is `is_le` its parent's -/
+def HeapAt (r : α → α → Bool) (d : List α) (i : Nat) : Prop :=
+  ∀ c p, d[i]? = some c → d[(i - 1) / 2]? = some p → r c p = true
+
+/-- the binary max-heap property w.r.t. `is_le` -/
+def HeapInv (r : α → α → Bool) (d : List α) : Prop := ∀ i, 0 < i → HeapAt r d i
+
+/-- heap everywhere except between `pos` and its parent; the children of `pos` already respect the
+parent of `pos` (the state of `sift_up` with the hole at `pos` filled by the travelling element) -/
+def SU (r : α → α → Bool) (d : List α) (pos : Nat) : Prop :=
+  (∀ i, 0 < i → i ≠ pos → HeapAt r d i) ∧
+  (0 < pos → ∀ c, 0 < c → (c - 1) / 2 = pos → ∀ x g, d[c]? = some x → d[(pos - 1) / 2]? = some g →
+    r x g = true)
+
+theorem su_step {r : α → α → Bool} (ht : TotalLe r) {d d' : List α} {pos : Nat} {elt p : α}
+    (hpos : 0 < pos) (hdp : d[(pos - 1) / 2]? = some p) (hpe : r p elt = true)
+    (hSU : SU r d pos)
+    (hd' : ∀ i, d'[i]? = if i = (pos - 1) / 2 then some elt else if i = pos then some p else d[i]?) :
+    SU r d' ((pos - 1) / 2) := by
+  obtain ⟨h1, h2⟩ := hSU
+  have h2 := h2 hpos
+  constructor
+  · intro i hi hne c q hc hq
+    rw [hd' i] at hc
+    rw [hd' ((i - 1) / 2)] at hq
+    simp only [hne, ite_false] at hc
+    by_cases e1 : i = pos
+    · subst e1
+      simp only [ite_true] at hc hq
+      cases hc; cases hq; exact hpe
+    · simp only [e1, ite_false] at hc
+      by_cases e2 : (i - 1) / 2 = (pos - 1) / 2
+      · simp only [e2, ite_true] at hq
+        cases hq
+        have := h1 i hi e1 c p hc (by rw [e2]; exact hdp)
+        exact ht.trans _ _ _ this hpe
+      · simp only [e2, ite_false] at hq
+        by_cases e3 : (i - 1) / 2 = pos
+        · simp only [e3, ite_true] at hq
+          cases hq
+          exact h2 i hi e3 c p hc hdp
+        · simp only [e3, ite_false] at hq
+          exact h1 i hi e1 c q hc hq
+  · intro hpar c hc0 hcp x g hx hg
+    rw [hd' c] at hx
+    rw [hd' (((pos - 1) / 2 - 1) / 2)] at hg
+    have e1 : ((pos - 1) / 2 - 1) / 2 ≠ (pos - 1) / 2 := by omega
+    have e2 : ((pos - 1) / 2 - 1) / 2 ≠ pos := by omega
+    simp only [e1, e2, ite_false] at hg
+    have hpg : r p g = true := h1 ((pos - 1) / 2) hpar (by omega) p g hdp hg
+    have e3 : c ≠ (pos - 1) / 2 := by omega
+    simp only [e3, ite_false] at hx
+    by_cases e4 : c = pos
+    · simp only [e4, ite_true] at hx
+      cases hx; exact hpg
+    · simp only [e4, ite_false] at hx
+      have := h1 c hc0 e4 x p hx (by rw [hcp]; exact hdp)
+      exact ht.trans _ _ _ this hpg
+
+theorem getElem?_set' {l : List α} {i j : Nat} {v : α} (hi : i < l.length) :
+    (l.set i v)[j]? = if j = i then some v else l[j]? := by
+  rw [List.getElem?_set]
+  by_cases e : i = j
+  · subst e; simp [hi]
+  · have : j ≠ i := fun h => e h.symm
+    simp [e, this]
+
+theorem siftUp_heap {le : Cmp ε α} {r : α → α → Bool} (hp : Pure le r) (ht : TotalLe r)
+    (fuel : Nat) (data : List α) (elt : α) (pos n : Nat) (hpos : pos < data.length) (hf : pos < fuel)
+    (hSU : SU r (data.set pos elt) pos) :
+    PureSat (fun st : List α × Nat => HeapInv r st.1) (siftUp le 0 fuel data elt pos n) := by
+  induction fuel generalizing data pos n with
+  | zero => omega
+  | succ fuel ih =>
+    simp only [siftUp]
+    split
+    · rename_i hgt
+      have hpar : (pos - 1) / 2 < data.length := by omega
+      rw [List.getElem?_eq_getElem hpar]
+      simp only [hp n]
+      have hdp : (data.set pos elt)[(pos - 1) / 2]? = some data[(pos - 1) / 2] := by
+        rw [getElem?_set' hpos, if_neg (by omega), List.getElem?_eq_getElem hpar]
+      cases hc : r elt data[(pos - 1) / 2] with
+      | true =>
+        simp only
+        intro i hi
+        by_cases e : i = pos
+        · subst e
+          intro c p h1 h2
+          rw [getElem?_set' hpos, if_pos rfl] at h1
+          rw [hdp] at h2
+          cases h1; cases h2; exact hc
+        · exact hSU.1 i hi e
+      | false =>
+        simp only
+        have hpe : r data[(pos - 1) / 2] elt = true := by
+          rcases ht.total data[(pos - 1) / 2] elt with h | h
+          · exact h
+          · rw [hc] at h; cases h
+        refine ih (data.set pos data[(pos - 1) / 2]) ((pos - 1) / 2) (n + 1) (by simpa using hpar)
+          (by omega) ?_
+        refine su_step ht hgt hdp hpe hSU (fun i => ?_)
+        rw [getElem?_set' (by simpa using hpar), getElem?_set' hpos, getElem?_set' hpos]
+        by_cases e1 : i = (pos - 1) / 2
+        · simp [e1]
+        · by_cases e2 : i = pos <;> simp [e1, e2]
+    · rename_i hle
+      have : pos = 0 := by omega
+      subst this
+      intro i hi
+      exact hSU.1 i hi (by omega)
+
+theorem push_heap {le : Cmp ε α} {r : α → α → Bool} (hp : Pure le r) (ht : TotalLe r)
+    (data : List α) (item : α) (n : Nat) (hd : HeapInv r data) :
+    PureSat (fun d : List α => HeapInv r d) (push le data item n) := by
+  unfold push
+  have hs : (data ++ [item]).set data.length item = data ++ [item] := by
+    apply set_self_of_getElem?; simp
+  have := siftUp_heap hp ht (data.length + 1) (data ++ [item]) item data.length n (by simp) (by omega) (by
+    rw [hs]
+    constructor
+    · intro i hi hne c p h1 h2
+      have hil : i < data.length := by
+        have := lt_length_of_getElem? h1
+        simp at this; omega
+      rw [List.getElem?_append_left hil] at h1
+      rw [List.getElem?_append_left (by omega)] at h2
+      exact hd i hi c p h1 h2
+    · intro _ c hc0 hcp x g hx
+      have := lt_length_of_getElem? hx
+      simp at this; omega)
+  revert this
+  cases siftUp le 0 (data.length + 1) (data ++ [item]) item data.length n with
+  | ok v m => intro h; exact h
+  | fail e b m => intro h; exact h
+  | panic => intro h; exact h
+
+/-- heap everywhere except at the relations that involve `hole`; the children of `hole` already respect
+the parent of `hole` (the state of `sift_down_to_bottom` while the hole travels down) -/
+def SD (r : α → α → Bool) (d : List α) (hole : Nat) : Prop :=
+  (∀ i, 0 < i → i ≠ hole → (i - 1) / 2 ≠ hole → HeapAt r d i) ∧
+  (0 < hole → ∀ c, 0 < c → (c - 1) / 2 = hole → ∀ x g, d[c]? = some x → d[(hole - 1) / 2]? = some g →
+    r x g = true)
+
+theorem sd_step {r : α → α → Bool} {d d' : List α} {hole ch : Nat} {v : α}
+    (hch0 : 0 < ch) (hchp : (ch - 1) / 2 = hole) (hv : d[ch]? = some v)
+    (hother : ∀ o w, 0 < o → (o - 1) / 2 = hole → o ≠ ch → d[o]? = some w → r w v = true)
+    (hSD : SD r d hole)
+    (hd' : ∀ i, d'[i]? = if i = hole then some v else d[i]?) : SD r d' ch := by
+  obtain ⟨h1, h2⟩ := hSD
+  constructor
+  · intro i hi hne hpne c q hc hq
+    rw [hd' i] at hc
+    rw [hd' ((i - 1) / 2)] at hq
+    by_cases e1 : i = hole
+    · subst e1
+      simp only [ite_true] at hc
+      cases hc
+      have e2 : (i - 1) / 2 ≠ i := by omega
+      simp only [e2, ite_false] at hq
+      exact h2 hi ch hch0 hchp v q hv hq
+    · simp only [e1, ite_false] at hc
+      by_cases e2 : (i - 1) / 2 = hole
+      · simp only [e2, ite_true] at hq
+        cases hq
+        exact hother i c hi e2 hne hc
+      · simp only [e2, ite_false] at hq
+        exact h1 i hi e1 e2 c q hc hq
+  · intro _ c hc0 hcp x g hx hg
+    rw [hd' c] at hx
+    rw [hd' ((ch - 1) / 2)] at hg
+    have e1 : c ≠ hole := by omega
+    simp only [e1, ite_false, hchp, ite_true] at hx hg
+    cases hg
+    exact h1 c hc0 e1 (by omega) x v hx (by rw [hcp]; exact hv)
+
+def SDLPost (r : α → α → Bool) (len : Nat) (st : List α × Nat × Nat) : Prop :=
+  SD r st.1 st.2.1 ∧ st.2.1 < st.1.length ∧ st.2.2 = 2 * st.2.1 + 1 ∧ st.1.length = len ∧
+    ¬ st.2.2 ≤ len - 2
+
+theorem siftDownLoop_heap {le : Cmp ε α} {r : α → α → Bool} (hp : Pure le r) (ht : TotalLe r)
+    (elt : α) (fuel : Nat) (data : List α) (hole child n : Nat) (hh : hole < data.length)
+    (hc : child = 2 * hole + 1) (hf : data.length - hole ≤ fuel) (hSD : SD r data hole) :
+    PureSat (SDLPost r data.length) (siftDownLoop le elt fuel data hole child n) := by
+  induction fuel generalizing data hole child n with
+  | zero => omega
+  | succ fuel ih =>
+    simp only [siftDownLoop]
+    split
+    · rename_i hle
+      have h1 : child < data.length := by omega
+      have h2 : child + 1 < data.length := by omega
+      rw [List.getElem?_eq_getElem h1, List.getElem?_eq_getElem h2]
+      simp only [hp n]
+      cases hcr : r data[child] data[child + 1] with
+      | true =>
+        simp only [ite_true]
+        rw [List.getElem?_eq_getElem h2]
+        simp only
+        have := ih (data.set hole data[child + 1]) (child + 1) (2 * (child + 1) + 1) (n + 1)
+          (by simp; omega) rfl (by simp; omega) ?_
+        · rw [List.length_set] at this; exact this
+        · refine sd_step (by omega) (by omega) (List.getElem?_eq_getElem h2) ?_ hSD
+            (fun i => getElem?_set' hh)
+          intro o w ho hop hne how
+          have : o = child := by omega
+          subst this
+          rw [List.getElem?_eq_getElem h1] at how
+          cases how; exact hcr
+      | false =>
+        simp only [Bool.false_eq_true, ite_false]
+        rw [List.getElem?_eq_getElem h1]
+        simp only
+        have := ih (data.set hole data[child]) child (2 * child + 1) (n + 1)
+          (by simp; omega) rfl (by simp; omega) ?_
+        · rw [List.length_set] at this; exact this
+        · refine sd_step (by omega) (by omega) (List.getElem?_eq_getElem h1) ?_ hSD
+            (fun i => getElem?_set' hh)
+          intro o w ho hop hne how
+          have : o = child + 1 := by omega
+          subst this
+          rw [List.getElem?_eq_getElem h2] at how
+          cases how
+          rcases ht.total data[child + 1] data[child] with h | h
+          · exact h
+          · rw [hcr] at h; cases h
+    · rename_i hgt
+      exact ⟨hSD, hh, hc, rfl, hgt⟩
+
+/-- a hole at a leaf, filled with `elt`: ready for `sift_up` -/
+theorem su_of_sd_leaf {r : α → α → Bool} {d : List α} {hole : Nat} {elt : α} (hh : hole < d.length)
+    (hleaf : d.length ≤ 2 * hole + 1) (hSD : SD r d hole) : SU r (d.set hole elt) hole := by
+  constructor
+  · intro i hi hne c p h1 h2
+    rw [getElem?_set' hh, if_neg hne] at h1
+    have hil := lt_length_of_getElem? h1
+    have e : (i - 1) / 2 ≠ hole := by omega
+    rw [getElem?_set' hh, if_neg e] at h2
+    exact hSD.1 i hi hne e c p h1 h2
+  · intro _ c hc0 hcp x g hx
+    have := lt_length_of_getElem? hx
+    simp at this; omega
+
+theorem siftDownToBottom_heap {le : Cmp ε α} {r : α → α → Bool} (hp : Pure le r) (ht : TotalLe r)
+    (data : List α) (n : Nat) (hne : 0 < data.length) (hSD : SD r data 0) :
+    PureSat (fun d : List α => HeapInv r d ∧ d.length = data.length) (siftDownToBottom le data 0 n) := by
+  unfold siftDownToBottom
+  rw [List.getElem?_eq_getElem hne]
+  simp only
+  refine (siftDownLoop_heap hp ht data[0] (data.length + 1) data 0 (2 * 0 + 1) n hne rfl (by omega) hSD).bind
+    (fun st n1 hst => ?_)
+  obtain ⟨d, hole, child⟩ := st
+  obtain ⟨q1, q2, q3, q4, q5⟩ := hst
+  simp only at q1 q2 q3 q4 q5 ⊢
+  rw [if_neg (by omega)]
+  have fin : ∀ (d2 : List α) (h2 : Nat), h2 < d2.length → d2.length = data.length → d2.length ≤ 2 * h2 + 1 →
+      SD r d2 h2 →
+      PureSat (fun d : List α => HeapInv r d ∧ d.length = data.length)
+        ((siftUp le 0 (h2 + 1) d2 data[0] h2 n1).map (·.1)) := by
+    intro d2 h2 hl1 hl2 hleaf hsd
+    have hs := siftUp_heap hp ht (h2 + 1) d2 data[0] h2 n1 hl1 (by omega) (su_of_sd_leaf hl1 hleaf hsd)
+    have hc := siftUp_conserves le 0 (h2 + 1) d2 data[0] h2 n1 hl1
+    revert hs hc
+    cases siftUp le 0 (h2 + 1) d2 data[0] h2 n1 with
+    | ok v m =>
+      intro hs hc
+      refine ⟨hs, ?_⟩
+      have : v.1.length = (d2.set h2 data[0]).length := (show v.1.Perm _ from hc).length_eq
+      simpa [hl2] using this
+    | fail e b m => intro hs _; exact hs
+    | panic => intro hs _; exact hs
+  by_cases hcl : child = d.length - 1
+  · have hcl' : child < d.length := by omega
+    simp only [hcl, ite_true]
+    rw [List.getElem?_eq_getElem (by omega : d.length - 1 < d.length)]
+    simp only
+    refine fin (d.set hole d[d.length - 1]) (d.length - 1) (by simp; omega) (by simp; omega)
+      (by simp; omega) ?_
+    refine sd_step (by omega) (by omega) (List.getElem?_eq_getElem (by omega)) ?_ q1
+      (fun i => getElem?_set' q2)
+    intro o w ho hop hne' how
+    have := lt_length_of_getElem? how
+    omega
+  · simp only [hcl, ite_false]
+    exact fin d hole q2 q4 (by omega) q1
+
+theorem TotalLe.refl {r : α → α → Bool} (ht : TotalLe r) (a : α) : r a a = true := by
+  rcases ht.total a a with h | h <;> exact h
+
+/-- in a heap every entry is `is_le` the root -/
+theorem root_max {r : α → α → Bool} (ht : TotalLe r) {d : List α} (hd : HeapInv r d) :
+    ∀ (i : Nat) (x m : α), d[i]? = some x → d[0]? = some m → r x m = true := by
+  intro i
+  induction i using Nat.strongRecOn with
+  | _ i ih =>
+    intro x m hx hm
+    by_cases h0 : i = 0
+    · subst h0; rw [hx] at hm; cases hm; exact ht.refl _
+    · have hil := lt_length_of_getElem? hx
+      have hpl : (i - 1) / 2 < d.length := by omega
+      have hp := List.getElem?_eq_getElem hpl
+      exact ht.trans _ _ _ (hd i (by omega) x _ hx hp) (ih ((i - 1) / 2) (by omega) _ m hp hm)
+
+theorem heapInv_nil (r : α → α → Bool) : HeapInv r ([] : List α) := by
+  intro i _ c p h; simp at h
+
+/-- what `pop` delivers on a heap with a pure comparator -/
+def PopSpec (r : α → α → Bool) (data : List α) (st : Option α × List α) : Prop :=
+  match st.1 with
+  | none => data = [] ∧ st.2 = []
+  | some x => (x :: st.2).Perm data ∧ HeapInv r st.2 ∧ ∀ b ∈ data, r b x = true
+
+theorem pop_spec {le : Cmp ε α} {r : α → α → Bool} (hp : Pure le r) (ht : TotalLe r)
+    (data : List α) (n : Nat) (hd : HeapInv r data) :
+    PureSat (PopSpec r data) (pop le data n) := by
+  unfold pop
+  cases hl : data.getLast? with
+  | none =>
+    have : data = [] := List.getLast?_eq_none_iff.mp hl
+    simp [this, PureSat, PopSpec]
+  | some last =>
+    simp only
+    have hdata : data = data.dropLast ++ [last] :=
+      (List.dropLast_append_getLast? last (by simpa using hl)).symm
+    cases hdl : data.dropLast with
+    | nil =>
+      simp only
+      rw [hdl] at hdata
+      refine ⟨by rw [hdata]; simp, heapInv_nil r, ?_⟩
+      intro b hb
+      rw [hdata] at hb
+      simp at hb; subst hb; exact ht.refl _
+    | cons root t =>
+      simp only
+      have hlen : 0 < ((root :: t).set 0 last).length := by simp
+      have hroot : data[0]? = some root := by rw [hdata, hdl]; rfl
+      have hmax : ∀ b ∈ data, r b root = true := by
+        intro b hb
+        obtain ⟨i, hi⟩ := List.getElem?_of_mem hb
+        exact root_max ht hd i b root hi hroot
+      have hperm : (root :: (root :: t).set 0 last).Perm data := by
+        rw [hdata, hdl]
+        simp only [List.set_cons_zero]
+        refine (List.Perm.swap last root t).trans ?_
+        simpa using (List.perm_append_comm (l₁ := [last]) (l₂ := root :: t))
+      have hSD : SD r ((root :: t).set 0 last) 0 := by
+        constructor
+        · intro i hi hne hpne c p h1 h2
+          simp only [List.set_cons_zero] at h1 h2
+          have hil : i < (root :: t).length := by
+            have := lt_length_of_getElem? h1; simpa using this
+          have e1 : data[i]? = some c := by
+            rw [hdata, hdl, List.getElem?_append_left hil]
+            cases i with
+            | zero => omega
+            | succ i' => simpa using h1
+          have e2 : data[(i - 1) / 2]? = some p := by
+            rw [hdata, hdl, List.getElem?_append_left (by omega)]
+            cases hpi : (i - 1) / 2 with
+            | zero => omega
+            | succ j => rw [hpi] at h2; simpa using h2
+          exact hd i hi c p e1 e2
+        · intro h; omega
+      have hs := siftDownToBottom_heap hp ht ((root :: t).set 0 last) n hlen hSD
+      have hc := siftDownToBottom_conserves le ((root :: t).set 0 last) 0 n
+      revert hs hc
+      cases siftDownToBottom le ((root :: t).set 0 last) 0 n with
+      | ok d' m =>
+        intro hs hc
+        exact ⟨(List.Perm.cons root hc).trans hperm, hs.1, hmax⟩
+      | fail e b m => intro hs _; exact hs
+      | panic => intro hs _; exact hs
+
+theorem pushAll_heap {le : Cmp ε α} {r : α → α → Bool} (hp : Pure le r) (ht : TotalLe r)
+    (data xs : List α) (n : Nat) (hd : HeapInv r data) :
+    PureSat (fun d : List α => HeapInv r d ∧ d.Perm (data ++ xs)) (pushAll le data xs n) := by
+  induction xs generalizing data n with
+  | nil => exact ⟨hd, by simp⟩
+  | cons x xs ih =>
+    simp only [pushAll]
+    have h1 := push_heap hp ht data x n hd
+    have h2 := push_conserves le data x n
+    revert h1 h2
+    cases push le data x n with
+    | ok d m =>
+      intro h1 h2
+      simp only [Res.bind]
+      refine (ih d m h1).mono (fun v hv => ⟨hv.1, hv.2.trans ?_⟩)
+      have : d.Perm (data ++ [x]) := h2
+      simpa using this.append_right xs
+    | fail e b m => intro h1 _; exact h1
+    | panic => intro h1 _; exact h1
+
+/-- `k` pops from a heap: the `min k len` entries that nothing left behind exceeds, each one not exceeded
+by the later ones -/
+def PopNSpec (r : α → α → Bool) (data acc : List α) (k : Nat) (st : List α × List α) : Prop :=
+  ∃ qs, st.1 = acc.reverse ++ qs ∧ (qs ++ st.2).Perm data ∧ qs.length = min k data.length ∧
+    qs.Pairwise (fun a b => r b a = true) ∧ (∀ a ∈ qs, ∀ b ∈ st.2, r b a = true) ∧ HeapInv r st.2
+
+theorem popN_spec {le : Cmp ε α} {r : α → α → Bool} (hp : Pure le r) (ht : TotalLe r)
+    (k : Nat) (data acc : List α) (n : Nat) (hd : HeapInv r data) :
+    PureSat (PopNSpec r data acc k) (popN le k data acc n) := by
+  induction k generalizing data acc n with
+  | zero => exact ⟨[], by simp, by simp, by simp, List.Pairwise.nil, by simp, hd⟩
+  | succ k ih =>
+    simp only [popN]
+    refine (pop_spec hp ht data n hd).bind (fun st n1 hst => ?_)
+    obtain ⟨o, rest⟩ := st
+    cases o with
+    | none =>
+      obtain ⟨h1, h2⟩ := hst
+      simp only at h1 h2
+      subst h1; subst h2
+      exact ⟨[], by simp, by simp, by simp, List.Pairwise.nil, by simp, heapInv_nil r⟩
+    | some x =>
+      obtain ⟨h1, h2, h3⟩ := hst
+      simp only at h1 h2 h3 ⊢
+      refine (ih rest (x :: acc) n1 h2).mono (fun v hv => ?_)
+      obtain ⟨qs, q1, q2, q3, q4, q5, q6⟩ := hv
+      have hsub : ∀ y, y ∈ qs ++ v.2 → y ∈ data := by
+        intro y hy
+        exact h1.subset (List.mem_cons_of_mem x (q2.subset hy))
+      refine ⟨x :: qs, by simp [q1], ?_, ?_, ?_, ?_, q6⟩
+      · exact (List.Perm.cons x q2).trans h1
+      · have : data.length = rest.length + 1 := by rw [← h1.length_eq]; simp
+        simp only [List.length_cons, q3, this]; omega
+      · exact List.pairwise_cons.mpr ⟨fun a ha => h3 a (hsub a (by simp [ha])), q4⟩
+      · intro a ha b hb
+        rcases List.mem_cons.mp ha with rfl | ha
+        · exact h3 b (hsub b (by simp [hb]))
+        · exact q5 a ha b hb
+
+
+/-- what `n_largest` / `n_smallest` deliver: the `min n len` entries that nothing left behind exceeds
+(w.r.t. `is_le`), each one not exceeded by the later ones -/
+def NLargestSpec (r : α → α → Bool) (xs : List α) (k : Nat) (ps : List α) : Prop :=
+  ∃ rest, (ps ++ rest).Perm xs ∧ ps.length = min k xs.length ∧ ps.Pairwise (fun a b => r b a = true) ∧
+    ∀ a ∈ ps, ∀ b ∈ rest, r b a = true
+
+theorem nLargest_spec {le : Cmp ε α} {r : α → α → Bool} (hp : Pure le r) (ht : TotalLe r)
+    (k : Nat) (xs : List α) : PureSat (NLargestSpec r xs k) (nLargest le k xs) := by
+  unfold nLargest
+  refine (pushAll_heap hp ht [] xs 0 (heapInv_nil r)).bind (fun d c hd => ?_)
+  have hs := popN_spec hp ht k d [] c hd.1
+  revert hs
+  cases popN le k d [] c with
+  | ok v m =>
+    intro hs
+    obtain ⟨qs, q1, q2, q3, q4, q5, _⟩ := hs
+    have hperm : d.Perm xs := by simpa using hd.2
+    simp only [Res.map, PureSat]
+    refine ⟨v.2, ?_, ?_, ?_, ?_⟩
+    · rw [q1]; simpa using q2.trans hperm
+    · rw [q1]; simp [q3, hperm.length_eq]
+    · rw [q1]; simpa using q4
+    · rw [q1]; simpa using q5
+  | fail e b m => intro hs; exact hs
+  | panic => intro hs; exact hs
+
+end Heap
+
 end XrayModel.Sort
